@@ -5,6 +5,7 @@ use serde::{Deserialize, Serialize};
 /// UDP Endpoint
 #[derive(Debug, PartialEq, Deserialize, Serialize, Clone, Eq, Hash)]
 #[cfg_attr(feature = "openapi", derive(utoipa::ToSchema))]
+#[cfg_attr(feature = "ypo_flute_verif", derive(PartialOrd, Ord))]
 pub struct UDPEndpoint {
     /// Network source adress
     pub source_address: Option<String>,
